@@ -30,7 +30,7 @@ Inductive rbody :=
 | RModule (exports : option (list string)) (imports : list string) (members : list (string * nat))
 | RClass (imports : list string) (bases : list nat) (bpaths : list (list string)) (members : list (string * nat))
 | RFunction (s : sig) (ret : option nat)
-| RAttribute (value : option nat)
+| RAttribute (value : option nat) (vpath : option (list string))   (* vpath: canonical path of the value when it is a name / dotted name *)
 | RAlias (tpath : list string).
 Record rnode := mkR { rname : string; rpublic : option bool; rbody_of : rbody }.
 Record rstore := mkRS { rnodes : list rnode; rcoll : list (string * nat) }.
@@ -102,13 +102,35 @@ Fixpoint final (r : rstore) (fuel : nat) (i : nat) : option nat :=
            end
   end.
 
-(* Class.resolved_bases + `if base.is_class` of _mro: KeyError / AliasResolutionError / CyclicAliasError -> dropped *)
+(* Class.resolved_bases: get_member(base_path), final_target of an alias, then the loop that follows a base named through a plain
+   assignment (`Base = Class`: an attribute whose value is a name / dotted name) down to the object it names -- get_member of the
+   value's canonical path, final_target again, KeyError when a path comes back (followed set).  None = an exception
+   (KeyError / AliasResolutionError / CyclicAliasError): the base is dropped.  Fuel: one unit per followed attribute. *)
+Definition rvpath (n : rnode) : option (list string) := match rbody_of n with RAttribute _ vp => vp | _ => None end.
+Definition locate (r : rstore) (p : list string) : option nat :=
+  match walk r p with WOk t => final r (chase_fuel r) t | _ => None end.
+Fixpoint follow (r : rstore) (fuel : nat) (followed : list nat) (o : nat) : option nat :=
+  match fuel with
+  | 0 => None
+  | S f =>
+    match rget r o with
+    | None => None
+    | Some n =>
+      match rvpath n with
+      | None => Some o
+      | Some vp => match locate r vp with
+                   | Some o' => if nmem o' followed then None else follow r f (o' :: followed) o'
+                   | None => None end
+      end
+    end
+  end.
+(* + `if base.is_class` of _mro *)
 Definition resolve_base (r : rstore) (bp : list string) : list nat :=
-  match walk r bp with
-  | WOk t => match final r (chase_fuel r) t with
-             | Some o => match rget r o with Some n => if r_is_class n then [o] else [] | None => [] end
-             | None => [] end
-  | _ => []
+  match locate r bp with
+  | Some o0 => match follow r (chase_fuel r) [o0] o0 with
+               | Some o => match rget r o with Some n => if r_is_class n then [o] else [] | None => [] end
+               | None => [] end
+  | None => []
   end.
 Definition rbases (r : rstore) (n : rnode) : list nat := flat_map (resolve_base r) (rbpaths n).
 
@@ -140,7 +162,7 @@ Definition elab_body (r : rstore) (ll : list (list (string * nat))) (i : nat) (n
   | RModule e im ms => BModule e im ms
   | RClass im bs _ ms => BClass im bs (number (List.length (rnodes r) + offset ll i) (nth i ll [])) ms
   | RFunction s t => BFunction s t
-  | RAttribute v => BAttribute v
+  | RAttribute v _ => BAttribute v
   | RAlias _ => BAlias (outcome r i)
   end.
 Definition elab_node (r : rstore) (ll : list (list (string * nat))) (i : nat) (n : rnode) : node :=
@@ -162,6 +184,7 @@ Definition no_through (r : rstore) (n : rnode) : bool :=
   match rbody_of n with
   | RAlias p => match walk r p with WThrough => false | _ => true end
   | RClass _ _ bps _ => forallb (fun p => match walk r p with WThrough => false | _ => true end) bps
+  | RAttribute _ (Some p) => match walk r p with WThrough => false | _ => true end
   | _ => true
   end.
 Definition rwf (r : rstore) : bool :=
@@ -196,7 +219,7 @@ Definition dec_rbody (s : sexp) : option rbody :=
       do im' <- dec_strs im; do bs' <- as_list_of as_nat bs; do bps' <- as_list_of dec_path bps; do ms' <- dec_members ms;
       Some (RClass im' bs' bps' ms')
   | SList [SStr "function"; sg; ret] => do sg' <- dec_sig sg; do ret' <- as_opt as_nat ret; Some (RFunction sg' ret')
-  | SList [SStr "attribute"; v] => do v' <- as_opt as_nat v; Some (RAttribute v')
+  | SList [SStr "attribute"; v; vp] => do v' <- as_opt as_nat v; do vp' <- as_opt dec_path vp; Some (RAttribute v' vp')
   | SList [SStr "alias"; p] => do p' <- dec_path p; Some (RAlias p')
   | _ => None end.
 Definition dec_rnode (s : sexp) : option rnode :=
